@@ -1523,7 +1523,8 @@ def main(chk: C.Check, build: C.Build) -> None:
     unreached_of: dict[str, tuple[set, dict]] = {}
     for prog, data, unreached in lazy:
         unreached_of[p_block(prog)] = (set(unreached), {})
-        for sub, d in deletions(prog, data, r, 8, 0):
+        # quick: all subsets up to 4 references; beyond, the base data, every single deletion and 4 seeded subsets
+        for sub, d in deletions(prog, data, r, 8 if thorough else 4, 4):
             cases.append((prog, d, sub, True))
 
     items = []
